@@ -143,6 +143,10 @@ def replay_g(v):
             "class": {"clause": why}}
 
 
+def nontrivial_g(v):
+    return True if "$" in v["src"] else None
+
+
 # -- direction V ------------------------------------------------------------
 _POOL = (["$"] * 10 + ["{", "}", "(", ")"] * 3 + list("aAbBzZ_019") * 2 +
          list(" \t-.:/\\\"'#%<>") + ["é", "É", "ß", "Ж", "中",
@@ -220,7 +224,7 @@ def run(chk):
                         invariants=["TypeOK", "MachineIsReplacement", "IdentityWithoutDollar", "Emit"],
                         properties=["NoRescan"])
     r, n = flow.run_g(chk, "MC_C04_G", cfg, replay_g,
-                      nontrivial=lambda v: True if "$" in v["src"] else None,
+                      nontrivial=nontrivial_g,
                       sample_every=50021, timeout=3000)
     chk.exhaustive = True
     chk.note("g_scenarios", n)
